@@ -92,3 +92,99 @@ Definition e_c06_count (v : val) : val :=
   | Some (t, a, n) => VZ (count_covered t a (Z.to_nat n))
   | None => bad_input
   end.
+
+(* ==== genome level (Model/Intervals.v, second half; Model/IvCombine.v: comb_cols) =====
+   a genome row crosses the boundary as
+   (chromosome start end gene accession strand weight probes tag) *)
+From CNV Require Import Model.Chromsort.
+From CNV Require Gen.IvCombiners.
+
+Definition frow : Type := g_row pcols.
+
+Definition getFrow (v : val) : option frow :=
+  match v with
+  | VL [VS c; VZ a; VZ b; VS g; VS acc; VS st; w; VZ pr; VZ t] =>
+      match getQ w with
+      | Some wq => Some (a, b, (c, mkPcols g acc st wq pr t))
+      | None => None
+      end
+  | _ => None
+  end.
+Definition getFrows (v : val) : option (list frow) := getList getFrow v.
+
+Definition vFrow (r : frow) : val :=
+  let p := snd (pay r) in
+  VL [VS (g_chrom r); VZ (lo r); VZ (hi r); VS (c_gene p); VS (c_acc p); VS (c_strand p);
+      VQ (Qred (c_weight p)); VZ (c_probes p); VZ (c_tag p)].
+Definition vFrows (l : list frow) : val := VL (map vFrow l).
+
+Definition fcomb : pcols -> list pcols -> pcols := comb_cols Gen.IvCombiners.ga_merge_stranded_default.
+
+(* [bp, table] *)
+Definition e_c06_g_merge (v : val) : val :=
+  match getPair getZ getFrows v with
+  | Some (bp, t) => vFrows (g_merge fcomb bp t)
+  | None => bad_input
+  end.
+
+Definition e_c06_g_flatten (v : val) : val :=
+  match getFrows v with
+  | Some t => vFrows (g_flatten (comb_cols Gen.IvCombiners.flatten_stranded) t)
+  | None => bad_input
+  end.
+
+Definition e_c06_g_subtract (v : val) : val :=
+  match getPair getFrows getFrows v with
+  | Some (a, b) => vFrows (g_subtract a b)
+  | None => bad_input
+  end.
+
+Definition e_c06_g_intersect (v : val) : val :=
+  match getPair getFrows getFrows v with
+  | Some (a, b) => vFrows (g_intersect a b)
+  | None => bad_input
+  end.
+
+(* [avg, min, table, cuts] *)
+Definition e_c06_g_subdivide (v : val) : val :=
+  match v with
+  | VL [VZ avg; VZ mn; t; cuts] =>
+      match getFrows t, getList (getTriple getZ getZ (getList getZ)) cuts with
+      | Some t, Some cs =>
+          if avg <=? 0 then VErr "avg_size <= 0"
+          else vFrows (g_subdivide fcomb avg mn (lookup_cut cs) t)
+      | _, _ => bad_input
+      end
+  | _ => bad_input
+  end.
+
+Fixpoint assoc_size (l : list (string * Z)) (c : string) : option Z :=
+  match l with
+  | [] => None
+  | (k, s) :: t => if String.eqb c k then Some s else assoc_size t c
+  end.
+
+(* [bp, sizes? = [[chrom, size] ...], table]; an empty mapping is falsy: no upper limit *)
+Definition e_c06_g_resize (v : val) : val :=
+  match getTriple getZ (getOpt (getList (getPair getS getZ))) getFrows v with
+  | Some (bp, sizes, t) =>
+      let sz := match sizes with
+                | Some ((_ :: _) as l) => Some (assoc_size l)
+                | _ => None
+                end in
+      vFrows (g_resize bp sz t)
+  | None => bad_input
+  end.
+
+Definition e_c06_g_total (v : val) : val :=
+  match getFrows v with
+  | Some t => VZ (g_total fcomb t)
+  | None => bad_input
+  end.
+
+(* GenomicArray.sort *)
+Definition e_c06_g_sort (v : val) : val :=
+  match getFrows v with
+  | Some t => vFrows (sort_regions_fast (@g_proj pcols) t)
+  | None => bad_input
+  end.
